@@ -1,9 +1,9 @@
 import os
 import stat
-import subprocess
 
 from pygopherd import gopherentry
 from pygopherd.handlers.base import VFS_Real
+from pygopherd.handlers.file import run_to_wfile
 from pygopherd.handlers.virtual import Virtual
 
 
@@ -43,10 +43,5 @@ class ExecHandler(Virtual):
         if self.selectorargs:
             args.extend(self.selectorargs.split(" "))
 
-        if not self.protocol.check_tls():
-            subprocess.run(args, env=newenv, stdout=wfile)
-        else:
-            # We can't pass the file handler because it's wrapped in a TLS context.
-            # So grab the output from the CGI script and send it directly.
-            resp = subprocess.run(args, env=newenv, capture_output=True)
-            wfile.write(resp.stdout)
+        # We can't pass the file handler when it's wrapped in a TLS context.
+        run_to_wfile(args, wfile, not self.protocol.check_tls(), env=newenv)
